@@ -16,6 +16,8 @@ EXPLANATION = LEVEL_TEXT
 NOT_DECIDED = ("every per-photon numeric relation: unit direction, polarisation orthogonality, "
                "Cerenkov cone angle, position on the segment, energy inside the table range")
 
+TECHNIQUE = ('CFG guard dominance / must-pass on the photon-request path (threshold edge returns literal zero, clamp on other returns, guarded request fields)')
+
 UNITS = [
     "src/celeritas/optical/detail/CerenkovOffloadAction.cc",
     "src/celeritas/optical/detail/ScintOffloadAction.cc",
